@@ -41,7 +41,9 @@ func (m *Machine) call(fv Value, args []Value, site *ssa.CallCommon) Value {
 		}
 	}
 	if in, ok := intrinsics[name]; ok {
-		return in(m, m.forceLazyArgs(name, args))
+		if v := in(m, m.forceLazyArgs(name, args)); !isDeclined(v) {
+			return v
+		}
 	}
 	if fn.Synthetic == "" || len(fn.Blocks) > 0 {
 		// generic instantiations share the origin's name for intrinsics
